@@ -5,8 +5,15 @@ oracles instantiated by the string-validator model of C01 (`Validate`, lean/HedV
 self-contained request carries the schema environment (our own XML reading, as in c01.py), the definition dictionary and
 the tables; nothing is recorded from the real validator.  The answer is compared with the real
 `TabularInput/SpreadsheetInput.validate`: exception class, or the complete sorted (kind, severity, ec_row, ec_column) list.
-Tables holding a string outside the C01 model's fragment (a `Delay/` group, an unsupported value-class pattern, a string
-on which the real validator raises) are answered `unmodelled`: skipped and counted.
+Rows that get the row-level checks although one of their cells is malformed are computed on the concatenation of the
+cells' trees (`Tabular.validateClosedCells`, equal to `validateClosed` when there is no such row).  Tables holding a string
+outside the C01 model's fragment (a `Delay/` group, an unsupported value-class pattern, a string on which the real validator
+raises) are answered `unmodelled`: skipped and counted by reason.
+
+Third stream (`run_closed_raw`, op `closed.c07raw`): the model side gets the sidecar JSON and the raw table only; assembly
+(C06 model), the file layer's configuration, the file layer and string validation are all computed in Lean
+(`Tabular.validateClosedRaw`) and compared with the real `TabularInput(table, sidecar).validate(schema, extra_def_dicts)`:
+column names of the assembled frame, exception class, complete sorted issue list.
 """
 import json
 
@@ -120,10 +127,13 @@ WITNESS = [  # a row whose only error sits in a cell other than the last: still 
 ]
 
 
-def run_closed(ctx, specs=None):
+def run_closed(ctx, specs=None, pairs=None):
     import time
     t0 = time.time()
     su = Setup(ctx)
+    if pairs is not None:
+        return run_closed_raw(ctx, su, pairs)
+    generated = specs is None
     real, rng = su.real, ctx.rng
     if specs is None:
         n = 420 if ctx.quick() else 4000
@@ -140,7 +150,7 @@ def run_closed(ctx, specs=None):
         case = {"closed": True, "spec": spec}
         ctx.count("closed:tables")
         if "unmodelled" in m:
-            ctx.count("closed:skipped-unmodelled")
+            ctx.count("closed:skipped-unmodelled:" + m["unmodelled"])
             continue
         obs = real.observe(spec)
         cells = sum(1 for r in rq["rows"] for x in r["cells"] if x and x != "n/a")
@@ -154,6 +164,8 @@ def run_closed(ctx, specs=None):
         mine = c07.canon_obs([i[:4] for i in m["issues"]], [], rq["rowAdj"], rq["hasOnset"])
         impl = c07.canon_obs([i["k"] for i in obs["issues"]], [], rq["rowAdj"], rq["hasOnset"])
         ctx.count("closed:compared" + ("-onset" if rq["hasOnset"] else ""))
+        if m.get("split"):
+            ctx.count("closed:compared-with-malformed-cell-in-checked-row")
         for i in m["issues"]:
             ctx.count("closed:src-" + i[4])
         if any(i[4] == "row" for i in m["issues"]):
@@ -167,4 +179,176 @@ def run_closed(ctx, specs=None):
     ctx.extra["closed_rule"] = ("closed mode: 1-6 rows, 1-3 HED-bearing columns, cells from c01's conforming / injected-fault "
                                 "generator on 8.3.0, c07's fragments, Def/Def-expand uses, Duration groups and temporal markers "
                                 "(no Delay), distinct onsets; string validation computed by Validate inside Lean")
+    ctx.check_time()
+    if generated:
+        run_closed_raw(ctx, su)
+
+
+# ------------------------------------------------------------------------------------------ raw stream (C06 o C07 o C01)
+RAW_BUDGET_S = 25
+RAW_NAMES = ["a", "b", "c", "resp", "x_y", "k-1"]
+RAW_VALUE = ["Label/#", "Item-count/#", "(Duration/# s, (White))", "Age/# years", "Label/#, Red", "(Label/#, Blue)", "Def/C/#"]
+RAW_FORMS = ["{%(t)s}, %(s)s", "(%(s)s, {%(t)s})", "%(s)s, ({%(t)s}, Cross)", "%(s)s, ({%(t)s})", "{%(t)s}", "%(s)s,{%(t)s}",
+             "({%(t)s}, (%(s)s, {%(t)s}))"]
+RAW_WITNESS = [
+    {"sidecar": {"resp": {"HED": {"k1": "Red, {val}", "k2": "(Blue, {val})"}}, "val": {"HED": "Label/#"}},
+     "header": ["onset", "val", "resp", "HED"],
+     "rows": [["1.0", "x1", "k1", "Green"], ["2.5", "n/a", "k2", "n/a"], ["3.0", "x1", "zz", "Red, Red"]]},
+    {"sidecar": {"b": {"HED": {"k1": "Red", "k2": "Greenish"}}, "a": {"HED": "Item-count/#"}, "c": {"Description": "x"}},
+     "header": ["b", "trial", "a", "c"], "rows": [["k1", "1", "3", "u"], ["k2", "2", "abc", "v"], ["", "3", "", "w"]]},
+    {"sidecar": {"a": {"HED": {"k1": "(Def/A, Onset, {b})", "k2": "(Def/A, Offset)"}}, "b": {"HED": {"k1": "(Green)", "k2": "Blue"}}},
+     "header": ["onset", "a", "b"], "rows": [["2.0", "k2", "k2"], ["1.0", "k1", "k1"], ["n/a", "k1", "k2"]]},
+]
+
+
+def gen_pair(rng, g):
+    """a (sidecar, events table) pair: raw inputs only"""
+    names = rng.sample(RAW_NAMES, rng.randint(1, 3))
+    has_onset = rng.random() < 0.55
+    uid = [rng.randint(0, 10 ** 6) * 10]
+
+    def frag():
+        uid[0] += 1
+        return fragment(rng, g, uid[0], has_onset)
+    sc, kinds = {}, {}
+    for n in names:
+        k = rng.choices(["categorical", "value", "ignored", "untyped"], [6, 4, 1, 1])[0]
+        kinds[n] = k
+        if k == "categorical":
+            keys = ["k1", "k2", "k3"][:rng.randint(1, 3)]
+            sc[n] = {"HED": {key: frag() for key in keys}}
+            if rng.random() < 0.3:
+                sc[n]["Levels"] = {key: "level " + key for key in keys}
+        elif k == "value":
+            sc[n] = {"HED": rng.choice(RAW_VALUE), "Description": "d"}
+        elif k == "ignored":
+            sc[n] = rng.choice([{"Description": "x"}, {"Levels": {"k1": "a"}}, {}])
+        else:
+            sc[n] = rng.choice([{"HED": "Red"}, {"HED": {"k1": 5, "k2": "Red"}}, {"HED": 5}])
+    typed = [n for n in names if kinds[n] in ("categorical", "value")]
+    has_hed = rng.random() < 0.5
+    if len(typed) + has_hed >= 2 and typed and rng.random() < 0.6:        # curly-brace references
+        host = rng.choice(typed)
+        cand = [n for n in typed if n != host] + (["HED"] if has_hed else []) + (["ghost"] if rng.random() < 0.1 else [])
+        targets = rng.sample(cand, min(len(cand), rng.choice([1, 1, 1, 2])))
+        for t in targets:
+            form = rng.choice(RAW_FORMS)
+            h = sc[host]["HED"]
+            if isinstance(h, str):
+                sc[host]["HED"] = form % {"t": t, "s": h}
+            else:
+                for i, key in enumerate(h):
+                    if i == 0 or rng.random() < 0.5:
+                        h[key] = form % {"t": t, "s": rng.choice(["Circle", "Triangle", "(Circle, Triangle)", "Cross"])}
+    header = [n for n in names if rng.random() < 0.93]
+    if has_hed:
+        header.append("HED")
+    if has_onset:
+        header.append("onset")
+    header += rng.sample(["duration", "trial", "sample"], rng.randint(0, 2))
+    if not header:
+        header = ["trial"]
+    rng.shuffle(header)
+    nrows = rng.randint(1, 5)
+    onsets = rng.sample(range(1, 80), nrows)
+    if rng.random() < 0.5:
+        onsets.sort()
+    rows = []
+    for r in range(nrows):
+        row = []
+        for c in header:
+            u = rng.random()
+            if c == "onset":
+                row.append("n/a" if u < 0.06 else str(onsets[r] / 8) if u < 0.8 else str(onsets[r] * 8 // 8 if onsets[r] % 8 == 0
+                                                                                         else onsets[r] / 8))
+            elif c == "HED":
+                row.append(frag() if u < 0.6 else rng.choice(["n/a", ""]))
+            elif kinds.get(c) == "categorical":
+                row.append(rng.choice(list(sc[c]["HED"])) if u < 0.7 else rng.choice(["n/a", "", "zz", "N/A"]))
+            elif kinds.get(c) == "value":
+                row.append(rng.choice(["3", "abc", "7.5", "x1"]) if u < 0.65 else rng.choice(["n/a", "", "3 4", "a#b"]))
+            elif kinds.get(c) == "untyped":
+                row.append(rng.choice(["Red", "Blue", "Greenish", "k1"]) if u < 0.6 else rng.choice(["n/a", ""]))
+            else:
+                row.append(rng.choice(["k1", "x", "n/a", "", "4"]))
+        rows.append(row)
+    return {"sidecar": sc, "header": header, "rows": rows}
+
+
+def observe_pair(su, pair):
+    import io
+    import pandas as pd
+    from hed import TabularInput, Sidecar
+    try:
+        sc = Sidecar(io.StringIO(json.dumps(pair["sidecar"])))
+        df = pd.DataFrame(pair["rows"], columns=pair["header"], dtype=str)
+        data = TabularInput(df, sidecar=sc, name="gen")
+        issues = data.validate(su.real.schema, extra_def_dicts=su.real.dd)
+    except Exception as e:
+        return {"exc": type(e).__name__, "msg": str(e)[:200]}
+    out = []
+    for i in issues:
+        col = i.get("ec_column")
+        out.append([i["code"] + ":" + str(i.get("_kind")), i["severity"], i.get("ec_row"), None if col is None else str(col)])
+    return {"issues": out, "columns": [str(c) for c in data.dataframe_a.columns]}
+
+
+def run_closed_raw(ctx, su, pairs=None):
+    """third stream: the model side is computed from the raw (sidecar, table) pair alone (`Tabular.validateClosedRaw`)"""
+    import time
+    from harness.props import c06
+    t0 = time.time()
+    rng = ctx.rng
+    if pairs is None:
+        n = 260 if ctx.quick() else 3500
+        pairs = list(RAW_WITNESS) + [gen_pair(rng, su.gen) for _ in range(n)]
+    texts = [json.dumps(p, ensure_ascii=False) for p in pairs]
+    reqs = [{"sidecar": [[c, c06.enc(e)] for c, e in p["sidecar"].items()], "header": p["header"], "rows": p["rows"],
+             "maskByRow": su.variant["maskByRow"], "guardDelay": su.variant["guardDelay"]} for p in pairs]
+    ans = []
+    for lo in range(0, len(reqs), 500):
+        a = ctx.model.batch([dict(su.env(texts), op="closed.c07raw", pairs=reqs[lo:lo + 500])])[0]
+        if "bad-op" in a:
+            raise RuntimeError("driver: " + str(a["bad-op"]))
+        ans += a["answers"]
+    for pair, m in zip(pairs, ans):
+        case = {"closed": "raw", "pair": pair}
+        ctx.count("closed-raw:pairs")
+        if "unmodelled" in m:
+            ctx.count("closed-raw:skipped-unmodelled:" + m["unmodelled"])
+            continue
+        obs = observe_pair(su, pair)
+        cells = sum(1 for r in pair["rows"] for x in r if x and x != "n/a")
+        ctx.case(("closed-raw", json.dumps(pair, sort_keys=True)), nontrivial=len(pair["rows"]) >= 2 and cells >= 2)
+        if "exc" in m or "exc" in obs:
+            ctx.count("closed-raw:compared-exception")
+            if m.get("exc") != obs.get("exc"):
+                ctx.disagree("Tabular.validateClosedRaw = TabularInput(file, sidecar).validate (exception)", case,
+                             m.get("exc", "issues"), obs.get("exc", "issues"))
+            continue
+        has_onset = "onset" in pair["header"]
+        from harness.props.c08 import _walk_strings
+        refs = any("{" in x for x in _walk_strings(pair["sidecar"]))
+        ctx.count("closed-raw:compared" + ("-onset" if has_onset else ""))
+        if m.get("split"):
+            ctx.count("closed-raw:compared-with-malformed-cell-in-checked-row")
+        if refs:
+            ctx.count("closed-raw:compared-with-refs")
+        if m["columns"] != obs["columns"]:
+            ctx.disagree("Raw.aColumns = dataframe_a.columns", case, m["columns"], obs["columns"])
+        mine = c07.canon_obs([i[:4] for i in m["issues"]], [], 2, has_onset)
+        impl = c07.canon_obs(obs["issues"], [], 2, has_onset)
+        for i in m["issues"]:
+            ctx.count("closed-raw:src-" + i[4])
+        if mine != impl:
+            ctx.disagree("Tabular.validateClosedRaw = TabularInput(file, sidecar).validate (complete kind, severity, ec_row, "
+                         "ec_column list)", case, [x for x in mine if x not in impl][:6] or mine[:12],
+                         [x for x in impl if x not in mine][:6] or impl[:12])
+        if time.time() - t0 > RAW_BUDGET_S and ctx.quick():
+            ctx.count("closed-raw:stopped-at-budget")
+            break
+    ctx.extra["closed_raw_rule"] = ("raw closed mode: sidecars of 1-3 columns (categorical / value / ignored / untyped), entries from "
+                                    "the closed-mode fragments, curly-brace references (7 spellings, to columns, HED and a missing "
+                                    "name), tables of 1-5 rows with HED / onset / duration / unknown columns in shuffled order, "
+                                    "n/a and empty cells, unknown keys; the model sees the sidecar JSON and the raw cells only")
     ctx.check_time()
